@@ -388,17 +388,25 @@ def check(pid, tier, seed):
                                            cfg.get("timeout", 600) * 2, 1, playback=True)
             pv = pres.get(n, {})
             for fc in new:
-                pb = [x for x in pv.get("playback", []) if x["desc"] == fc["desc"]] or \
-                     [x for x in pv.get("playback", []) if x["kind"] != "cover"]
+                # candidates: the test Kani printed for this obligation first; Kani de-duplicates tests by
+                # their values, so the failing input may be printed under another check's name -> try all,
+                # the native run on the real code decides.
+                allpb = pv.get("playback", [])
+                cands = [x for x in allpb if x["desc"] == fc["desc"]] + \
+                        [x for x in allpb if x["desc"] != fc["desc"] and x["kind"] != "cover"] + \
+                        [x for x in allpb if x["desc"] != fc["desc"] and x["kind"] == "cover"]
                 rp = {"property": pid, "harness": n, "harness_path": v.get("path"), "entry": entry_of.get(n),
                       "obligation": fc["desc"], "location": "%s:%s" % (fc["file"], fc["line"]),
                       "verifier": "kani/cbmc", "verifier_output": v.get("raw", "")[-2500:], "values": None, "native": None}
                 has_input = False
-                if pb:
-                    rp["values"] = pb[0]["values"]
-                    nat = native_replay(stage, entry_of.get(n), n, pb[0]["values"])
-                    rp["native"] = nat
-                    has_input = nat["reproduced"]
+                for cand in cands[:6]:
+                    nat = native_replay(stage, entry_of.get(n), n, cand["values"])
+                    if rp["values"] is None:
+                        rp["values"], rp["native"] = cand["values"], nat
+                    if nat["reproduced"] and (fc["desc"] in nat["violated"] or nat["panic"] or not fc["desc"].startswith("C")):
+                        rp["values"], rp["native"] = cand["values"], nat
+                        has_input = True
+                        break
                 os.makedirs(os.path.join(VERIF, "evidence", "replays"), exist_ok=True)
                 path = os.path.join(VERIF, "evidence", "replays", "%s-%s-%s.json" % (pid, n, re.sub(r"\W+", "_", fc["desc"])[:60]))
                 json.dump(rp, open(path, "w"), indent=1)
